@@ -172,6 +172,27 @@ type vfRawTarget struct {
 	idx     int
 	seen    []*vfRawSeen
 	probeOK bool
+	acceptClose int // close this many non-probe connections right after accepting them
+	conns       map[*vfConn]struct{}
+}
+
+// closeConns closes every established connection (the target process died).
+func (rt *vfRawTarget) closeConns() {
+	rt.mu.Lock()
+	var cs []*vfConn
+	for c := range rt.conns {
+		cs = append(cs, c)
+	}
+	rt.mu.Unlock()
+	for _, c := range cs {
+		c.Close()
+	}
+}
+
+func (rt *vfRawTarget) setAcceptClose(n int) {
+	rt.mu.Lock()
+	rt.acceptClose = n
+	rt.mu.Unlock()
 }
 
 // rawTarget listens on name; probes (User-Agent kamal-proxy) are answered 200 while probeOK.
@@ -188,7 +209,18 @@ func (w *vfWorld) rawTarget(name string) *vfRawTarget {
 			if err != nil {
 				return
 			}
-			go rt.serve(c.(*vfConn))
+			vc := c.(*vfConn)
+			rt.mu.Lock()
+			ac := rt.acceptClose > 0 && !strings.HasPrefix(vc.RemoteAddr().String(), vfProbeClientIP)
+			if ac {
+				rt.acceptClose--
+			}
+			rt.mu.Unlock()
+			if ac {
+				vc.Close()
+				continue
+			}
+			go rt.serve(vc)
 		}
 	}()
 	return rt
@@ -215,6 +247,17 @@ func (rt *vfRawTarget) seenCopy() []vfRawSeen {
 var vfDefaultRawResponse = []vfRawStep{{Kind: "bytes", Data: "HTTP/1.1 200 OK\r\nContent-Length: 2\r\nX-Vf-Target: raw\r\n\r\nok"}}
 
 func (rt *vfRawTarget) serve(c *vfConn) {
+	rt.mu.Lock()
+	if rt.conns == nil {
+		rt.conns = map[*vfConn]struct{}{}
+	}
+	rt.conns[c] = struct{}{}
+	rt.mu.Unlock()
+	defer func() {
+		rt.mu.Lock()
+		delete(rt.conns, c)
+		rt.mu.Unlock()
+	}()
 	defer c.Close()
 	tee := &vfTeeConn{Conn: c, w: rt.w, firstByte: -1}
 	br := bufio.NewReader(tee)
